@@ -216,25 +216,49 @@ ReplyOf(r) == r     \* logged replies already have the specification's shape
 
 TraceTick == Live("tick") /\ now' = R.now /\ UNCHANGED <<uni, cfg, stable, tree, ing, next, sync, fee, cnt, known, flight, walks, bad, nad, lastq, upg>>
 
+\* the ingest phase of the logged message: the specification follows the logged number of completed
+\* blocks and pause position (if the state says there is ingestion work) and checks admissibility
+IngestWork(m) == m.ing.b # 0 \/ StableChild(m) # 0
+ObservedIngest(m) ==
+  IF ~IngestWork(m) THEN [m |-> m, status |-> "idle", lo |-> 0, hi |-> 0, flags |-> {}]
+  ELSE LET n == IF R.post.stableH > Len(m.stable) THEN R.post.stableH - Len(m.stable) ELSE 0
+       IN IngestObserved(m, n, R.post.ing)
+IngestChecks(m, r, B) ==
+  << <<"ingest.admissible", {}, r.flags>>,
+     <<"ingest.budget", TRUE, BudgetOK(r, B)>>,
+     <<"ingest.progress", TRUE, ProgressOK(m, r, B)>> >>
+
+\* the message trapped: the only trap the specification knows is the listed finding
+\* KF_ThresholdRaiseWhilePaused (the paused block completes but no child of the anchor is stable)
+TrapExpected(m, B) ==
+  /\ m.ing.b # 0 /\ StableChild(m) = 0
+  /\ OpCost(m.ing.b, m.ing.k, NumOps(m.ing.b)).lo <= B
+
 TraceHb ==
   /\ Live("hb")
-  /\ LET f == HbFull(St, Budget(R.budget), R.reply)
-         reqOK == <<"hb.request", f.req, IF R.req.k = "initial" THEN [k |-> "initial", anchor |-> R.req.anchor, processed |-> R.req.processed] ELSE R.req>>
-         netOK == <<"hb.request.net", IF R.req.k = "initial" THEN cfg.net ELSE "-", IF R.req.k = "initial" THEN R.req.net ELSE "-">>
-     IN IF f.st = "trap" THEN ExpectTrap("hb.ingest")
-        ELSE IF f.st = "called" /\ R.req.k # "none" /\ ~Conformant(f.req, R.reply)
-        THEN /\ UNCHANGED <<vars, nad, lastq, upg>> /\ bad' = TRUE
-             /\ Note("TOOLERROR", "hb.reply", "the harness delivered a reply that does not fit the request")
-        ELSE Land(f.m, <<reqOK, netOK>>)
+  /\ IF R.out = "trap"
+     THEN IF TrapExpected(St, Budget(R.budget)) THEN ExpectTrap("hb.ingest")
+          ELSE Land(St, <<>>)
+     ELSE \E r \in {ObservedIngest(St)} :
+          \E f \in {HbSecond(HbFirstWith(St, r), R.reply)} :
+            LET reqJ == IF R.req.k = "initial" THEN [k |-> "initial", anchor |-> R.req.anchor, processed |-> R.req.processed] ELSE R.req
+                netOK == <<"hb.request.net", IF R.req.k = "initial" THEN cfg.net ELSE "-", IF R.req.k = "initial" THEN R.req.net ELSE "-">>
+            IN IF f.st = "called" /\ R.req.k # "none" /\ ~Conformant(f.req, R.reply)
+               THEN /\ UNCHANGED <<vars, nad, lastq, upg>> /\ bad' = TRUE
+                    /\ Note("TOOLERROR", "hb.reply", "the harness delivered a reply that does not fit the request")
+               ELSE Land(f.m, <<<<"hb.request", f.req, reqJ>>, netOK>> \o IngestChecks(St, r, Budget(R.budget)))
 
 TraceHbSend ==
   /\ Live("hb_send")
-  /\ LET f == HbFirst(St, Budget(R.budget))
-         reqJ == IF R.req.k = "initial" THEN [k |-> "initial", anchor |-> R.req.anchor, processed |-> R.req.processed] ELSE R.req
-         m2 == IF f.st = "await" THEN [f.m EXCEPT !.flight = @ \cup {R.id}] ELSE f.m
-         stJ == IF f.st = "await" THEN "await" ELSE "done"
-     IN IF f.st = "trap" THEN ExpectTrap("hb.ingest")
-        ELSE Land(m2, << <<"hb.request", f.req, reqJ>>, <<"hb.outcome", stJ, R.out>> >>)
+  /\ IF R.out = "trap"
+     THEN IF TrapExpected(St, Budget(R.budget)) THEN ExpectTrap("hb.ingest")
+          ELSE Land(St, <<>>)
+     ELSE \E r \in {ObservedIngest(St)} :
+          \E f \in {HbFirstWith(St, r)} :
+            LET reqJ == IF R.req.k = "initial" THEN [k |-> "initial", anchor |-> R.req.anchor, processed |-> R.req.processed] ELSE R.req
+                m2 == IF f.st = "await" THEN [f.m EXCEPT !.flight = @ \cup {R.id}] ELSE f.m
+                stJ == IF f.st = "await" THEN "await" ELSE "done"
+            IN Land(m2, << <<"hb.request", f.req, reqJ>>, <<"hb.outcome", stJ, R.out>> >> \o IngestChecks(St, r, Budget(R.budget)))
 
 TraceHbReply ==
   /\ Live("hb_reply")
@@ -272,8 +296,10 @@ TraceBulkPush ==
 
 TraceIngest ==
   /\ Live("ingest")
-  /\ LET r == IngestRun(St, Budget(R.budget), FALSE)
-     IN IF r.status = "trap" THEN ExpectTrap("ingest") ELSE Land(r.m, <<>>)
+  /\ IF R.out = "trap"
+     THEN IF TrapExpected(St, Budget(R.budget)) THEN ExpectTrap("ingest")
+          ELSE Land(St, <<>>)
+     ELSE \E r \in {ObservedIngest(St)} : Land(r.m, IngestChecks(St, r, Budget(R.budget)))
 
 (***************************************************************************)
 (* Queries.                                                                *)
